@@ -966,7 +966,10 @@ func (v *Env) call(x *SExpr) Value {
 			a, b := v.unify(v.eval(args[1]), v.eval(args[2]))
 			return v.e.iteValue(c, a, b)
 		case "invoked":
-			return Scalar{v.e.ghostGet(v.state(), "invoked:"+args[0].String())}
+			// number of times this activation completed the given function value
+			fvv := v.eval(args[0])
+			id := v.e.scalarOf(fvv)
+			return Scalar{Sub(v.e.invGet(v.state(), id), v.e.invGet(v.e.entry, id))}
 		case "ghost":
 			return Scalar{v.e.ghostGet(v.state(), args[0].String())}
 		}
